@@ -84,7 +84,7 @@ def size_guard(ctx, tk):
 def to_numpy(ctx, tk):
     f = ctx.func(RA + ".to_numpy_array")
     fa = ctx.fa(f)
-    sinks = [n for n, c in find_calls(fa, lambda c: c.a[0].k == "attr" and c.a[0].a[1] == "reshape")]
+    sinks = [(n, c) for n, c in find_calls(fa, lambda c: c.a[0].k == "attr" and c.a[0].a[1] == "reshape")]
     what = "the flat buffer is reshaped to (n_rows, L) only after refusing unless every row has length L"
 
     def alleq(t):
